@@ -616,4 +616,116 @@ theorem pinv_init {env env' : Env} (hS : env.Steady) (hS' : env'.Steady) (hL : S
   · intro x _ node hg d hd
     exact ⟨node, hg, hd⟩
 
+/-! ## Executable checks (for concrete instances) -/
+
+/-- `SettledAt`, as a check -/
+def settledAtB (env : Env) (fuel : Nat) (s : St) (node : GNode) (k : Key) (c : Cell) : Bool :=
+  reloadHit env fuel s k &&
+  (match reloadOut env fuel s k with
+   | .ok v => decide (v = c.val) && (reloadDeps env fuel s k).all (fun d => decide (d ∈ node.deps)) &&
+       node.deps.all (fun d => decide (d ∈ reloadDeps env fuel s k))
+   | .err _ => (reloadDeps env fuel s k).all (fun d => decide (d ∈ node.deps))
+   | _ => false)
+
+theorem settledAt_of_check {env : Env} {fuel : Nat} {s : St} {node : GNode} {k : Key} {c : Cell}
+    (h : settledAtB env fuel s node k c = true) : SettledAt env fuel s node k c := by
+  unfold settledAtB at h
+  simp only [Bool.and_eq_true] at h
+  obtain ⟨h1, h2⟩ := h
+  refine ⟨h1, ?_⟩
+  cases ho : reloadOut env fuel s k with
+  | ok v =>
+    rw [ho] at h2
+    simp only [Bool.and_eq_true, decide_eq_true_eq, List.all_eq_true] at h2
+    obtain ⟨⟨hv, ha⟩, hb⟩ := h2
+    exact Or.inl ⟨by rw [hv], fun d => ⟨ha d, hb d⟩⟩
+  | err e =>
+    rw [ho] at h2
+    simp only [decide_eq_true_eq, List.all_eq_true] at h2
+    exact Or.inr ⟨e, rfl, h2⟩
+  | panicked => rw [ho] at h2; cases h2
+  | diverged => rw [ho] at h2; cases h2
+
+/-- `Settled`, as a check over the entries of the graph -/
+def settledB (env : Env) (fuel : Nat) (s : St) (g : Graph) : Bool :=
+  g.all fun x =>
+    match x.1 with
+    | .asset k =>
+      (match s.lookup k with
+       | some c => !(x.2.typed && c.dyn) || settledAtB env fuel s x.2 k c
+       | none => true)
+    | _ => true
+
+theorem settled_of_check {env : Env} {fuel : Nat} {s : St} {g : Graph}
+    (h : settledB env fuel s g = true) : Settled env fuel s g := by
+  intro k node c hg ht hc hd
+  unfold settledB at h
+  rw [List.all_eq_true] at h
+  have h1 := h (.asset k, node) (get_some_mem hg)
+  simp only [hc, ht, hd, Bool.and_self, Bool.not_true, Bool.false_or] at h1
+  exact settledAt_of_check h1
+
+/-- `NoMissInPass` and `ReloadsReturn`, as a check (on every step, performed or not) -/
+def stepsReturnHitB (env : Env) (fuel : Nat) (steps : List PassStep) : Bool :=
+  steps.all fun st => reloadHit env fuel st.s st.key &&
+    (match reloadOut env fuel st.s st.key with
+     | .ok _ => true
+     | .err _ => true
+     | _ => false)
+
+theorem noMiss_of_check {env : Env} {fuel : Nat} {steps : List PassStep}
+    (h : stepsReturnHitB env fuel steps = true) : NoMissInPass env fuel steps := by
+  intro st hst _ _ _
+  unfold stepsReturnHitB at h
+  rw [List.all_eq_true] at h
+  have h1 := h st hst
+  simp only [Bool.and_eq_true] at h1
+  exact h1.1
+
+theorem reloadsReturn_of_check {env : Env} {fuel : Nat} {steps : List PassStep}
+    (h : stepsReturnHitB env fuel steps = true) : ReloadsReturn env fuel steps := by
+  intro st hst _ _ _
+  unfold stepsReturnHitB at h
+  rw [List.all_eq_true] at h
+  have h1 := h st hst
+  simp only [Bool.and_eq_true] at h1
+  cases ho : reloadOut env fuel st.s st.key with
+  | ok v => exact Or.inl ⟨v, rfl⟩
+  | err e => exact Or.inr ⟨e, rfl⟩
+  | panicked => rw [ho] at h1; cases h1.2
+  | diverged => rw [ho] at h1; cases h1.2
+
+/-- `NoRewireOntoPending`, as a check -/
+def noRewireB (env : Env) (fuel : Nat) (steps : List PassStep) : Bool :=
+  steps.all fun st =>
+    match st.r.graph.get (.asset st.key) with
+    | some node =>
+      (reloadDeps env fuel st.s st.key).all fun d =>
+        match d with
+        | .asset y => decide (d ∈ node.deps) || (decide (y ≠ st.key) && decide (y ∉ st.later))
+        | _ => true
+    | none => true
+
+theorem noRewire_of_check {env : Env} {fuel : Nat} {steps : List PassStep}
+    (h : noRewireB env fuel steps = true) : NoRewireOntoPending env fuel steps := by
+  intro st hst node c hp y hy hno
+  unfold noRewireB at h
+  rw [List.all_eq_true] at h
+  have h1 := h st hst
+  rw [hp.1] at h1
+  simp only [List.all_eq_true] at h1
+  have h2 := h1 _ hy
+  simp only [Bool.or_eq_true, Bool.and_eq_true, decide_eq_true_eq] at h2
+  rcases h2 with h2 | h2
+  · exact (hno h2).elim
+  · exact h2
+
+/-! ## `run_update` -/
+
+/-- the steps of the pass `runUpdate env fuel s r` performs -/
+def updateSteps (env : Env) (fuel : Nat) (s : St) (r : RSt) : List PassStep :=
+  match topo r.graph fuel r.toReload with
+  | some keys => passSteps env fuel keys (s, { r with toReload := [] })
+  | none => []
+
 end AmVerif.Model
